@@ -92,6 +92,8 @@ CLASSES = {
     "obj-int-float": ("object", [1, 2.5, 3, -0.5], "None"),
     "obj-int": ("object", I64, "None"),
     "obj-bigint": ("object", [2 ** 70, -2 ** 65, 1], "None"),
+    "obj-int-big": ("object", [2 ** 53 + 1, 2 ** 62 + 3, -(2 ** 53) - 1, 1],
+                    "None"),
     "obj-bool": ("object", [True, False], "None"),
     "obj-timestamp": ("object", TS[:3], "None"),
     "obj-timedelta": ("object", TDS[:3], "None"),
@@ -379,4 +381,6 @@ def describe(s):
             {type(c).__name__ for c in s.dtype.categories})))
     if any(isinstance(v, complex) for v in vals):
         flags.add("complex")
+        if any(complex(v).imag != 0 for v in vals if isinstance(v, complex)):
+            flags.add("imag-nonzero")
     return sorted(flags)
